@@ -214,6 +214,11 @@ def run_case(c, ns):
                             "outcome": run_case({"cls": c["cls"], "op": "roundtrip", "raw": r.hex(), "offset": off,
                                                  "record": c.get("record")}, ns)})
             return {"packed": {"ok": raw.hex()}, "derived": out}
+        if op == "repack":
+            p = cls.unpack(bytes.fromhex(c["raw"]), c.get("offset", 0))
+            for n, v in c["set"]:
+                setattr(p, n, build(v, ns))
+            return {"ok": p.pack().hex()}
         if op == "eqvals":
             a = build(c["a"], ns)
             b = build(c["b"], ns)
